@@ -455,4 +455,194 @@ Section Proofs.
         destruct (fails j); simpl; rewrite IH; auto; intros; apply i_res0; now right. }
       rewrite E. now apply filter_perm.
   Qed.
+
+  (* ---- no deadlock: while perform has not returned, some thread can move ----------- *)
+  Lemma find_lt (P : nat -> bool) m : (exists j, j < m /\ P j = true) \/ (forall j, j < m -> P j = false).
+  Proof.
+    induction m as [|m IH].
+    - right. intros j Hj. lia.
+    - destruct IH as [(j & Hj & Hp)|Hn].
+      + left. exists j. split; [lia|auto].
+      + destruct (P m) eqn:E.
+        * left. exists m. split; [lia|auto].
+        * right. intros j Hj. destruct (Nat.eq_dec j m); [subst; auto|apply Hn; lia].
+  Qed.
+
+  Lemma nactive_none f k : (forall j, j < k -> active (f j) = false) -> nactive f k = 0.
+  Proof.
+    induction k; simpl; intros H; auto. rewrite (H k) by lia. rewrite IHk; auto.
+  Qed.
+
+  Lemma recvd_bound s : Inv s -> List.length (recvd s) <= n.
+  Proof.
+    intros I. destruct I. rewrite <- (map_length fst), <- (seq_length n 0).
+    apply NoDup_incl_length; auto. intros j Hj. apply i_recvd0 in Hj. apply in_seq.
+    assert (spawned (ws s j) = true) by (destruct (ws s j); simpl in *; try discriminate; reflexivity).
+    apply i_spawn0 in H. lia.
+  Qed.
+
+  Theorem no_deadlock_inv s : Inv s -> returned s = false -> exists c, step kinds fails s c <> s.
+  Proof.
+    intros I Hr. pose proof (recvd_bound s I) as Hb. destruct I.
+    (* a worker that can move by itself *)
+    destruct (find_lt (fun j => match ws s j with WReady | WRunning | WSent => true | _ => false end) n)
+      as [(j & Hj & Hp)|Hnone].
+    { exists (ChW j). simpl. unfold step_w. intros H.
+      apply (f_equal (fun st => ws st j)) in H.
+      destruct (ws s j) eqn:E; try discriminate; simpl in H; unfold upd in H; rewrite Nat.eqb_refl in H; congruence. }
+    (* a worker waiting to hand over its result *)
+    destruct (find_lt (fun j => match ws s j with WSending => true | _ => false end) n)
+      as [(j & Hj & Hp)|Hnosend].
+    { exists (ChRecv j). simpl. unfold step_recv. intros H.
+      destruct (ws s j) eqn:E; try discriminate. rewrite Hr in H.
+      assert (Hlt : List.length (recvd s) < n).
+      { assert (Hnj : ~ In j (map fst (recvd s))) by (intros Hin; apply i_recvd0 in Hin; rewrite E in Hin; discriminate).
+        assert (L : List.length (j :: map fst (recvd s)) <= List.length (seq 0 n)).
+        { apply NoDup_incl_length; [constructor; auto|].
+          intros x [<-|Hx]; apply in_seq; [lia|].
+          apply i_recvd0 in Hx.
+          assert (spawned (ws s x) = true) by (destruct (ws s x); simpl in *; try discriminate; reflexivity).
+          apply i_spawn0 in H0. lia. }
+        simpl in L. rewrite map_length, seq_length in L. lia. }
+      unfold n_infos in H. fold n in H. apply Nat.ltb_lt in Hlt. rewrite Hlt in H.
+      apply (f_equal (fun st => ws st j)) in H. simpl in H. unfold upd in H. rewrite Nat.eqb_refl in H. congruence. }
+    (* every worker is idle or done: batchPerform or perform moves *)
+    assert (Hquiet : forall j, j < pos (bp s) -> ws s j = WDone).
+    { intros j Hj. assert (Hs : spawned (ws s j) = true) by (apply i_spawn0; exact Hj).
+      assert (Hjn : j < n) by lia. specialize (Hnone j Hjn). specialize (Hnosend j Hjn).
+      destruct (ws s j); simpl in *; try discriminate; reflexivity. }
+    destruct (bp s) as [k|k|k|k|] eqn:Eb.
+    - exists ChB. simpl. unfold step_b. rewrite Eb. intros H. apply (f_equal bp) in H. rewrite Eb in H.
+      destruct (nth_error kinds k); [destruct (String.eqb (prev_kind s) s0)|]; simpl in H; discriminate.
+    - exists ChB. simpl. unfold step_b. rewrite Eb. intros H.
+      assert (Hw : wg s = 0).
+      { rewrite i_wg0. simpl. rewrite nactive_none; auto.
+        intros j Hj. rewrite (Hquiet j) by (simpl; exact Hj). reflexivity. }
+      rewrite Hw in H. simpl in i_pos0.
+      destruct (nth_error kinds k) eqn:Ek.
+      + apply (f_equal bp) in H. rewrite Eb in H. simpl in H. discriminate.
+      + apply nth_error_None in Ek. unfold n in i_pos0. lia.
+    - exists ChB. simpl. unfold step_b. rewrite Eb. intros H. apply (f_equal bp) in H. rewrite Eb in H. discriminate.
+    - exists ChB. simpl. unfold step_b. rewrite Eb. intros H. apply (f_equal bp) in H. rewrite Eb in H. discriminate.
+    - (* everything is done and handed over: perform returns *)
+      exists ChP. simpl. unfold step_p.
+      assert (Hall : List.length (recvd s) = n).
+      { apply Nat.le_antisymm; auto.
+        rewrite <- (map_length fst), <- (seq_length n 0).
+        apply NoDup_incl_length; [apply seq_NoDup|].
+        intros j Hj. apply in_seq in Hj. apply i_recvd0. rewrite (Hquiet j); [reflexivity|simpl; lia]. }
+      unfold n_infos. fold n. rewrite Hall, Nat.eqb_refl. intros H.
+      apply (f_equal returned) in H. simpl in H. congruence.
+  Qed.
+
+  Theorem no_deadlock sched :
+    returned (run kinds fails sched) = false -> exists c, step kinds fails (run kinds fails sched) c <> run kinds fails sched.
+  Proof. apply no_deadlock_inv. apply run_inv. Qed.
+
+  (* every effective step consumes budget: at most 6 per resource for the workers and
+     batchPerform together, one for the return *)
+  Definition wrank (w : wstate) : nat :=
+    match w with WIdle => 5 | WReady => 4 | WRunning => 3 | WSending => 2 | WSent => 1 | WDone => 0 end.
+  Fixpoint wsum (f : nat -> wstate) (k : nat) : nat :=
+    match k with O => 0 | S k' => wrank (f k') + wsum f k' end.
+  Definition brank (b : bpc) : nat :=
+    match b with
+    | BHead k => 4 * (n - k) + 1
+    | BWait k => 4 * (n - k)
+    | BAdd k => 4 * (n - k) - 1
+    | BGo k => 4 * (n - k) - 2
+    | BEnd => 0
+    end.
+  Definition measure (s : state) : nat :=
+    wsum (ws s) n + brank (bp s) + (if returned s then 0 else 1).
+
+  Lemma wsum_upd_out f j v k : k <= j -> wsum (upd f j v) k = wsum f k.
+  Proof.
+    induction k; simpl; intros H; auto. unfold upd at 1.
+    destruct (Nat.eqb k j) eqn:E; [apply Nat.eqb_eq in E; lia|]. rewrite IHk by lia. reflexivity.
+  Qed.
+
+  Lemma wsum_upd_in f j v k : j < k -> wsum (upd f j v) k + wrank (f j) = wsum f k + wrank v.
+  Proof.
+    induction k; simpl; intros H; [lia|]. unfold upd at 1.
+    destruct (Nat.eqb k j) eqn:E.
+    - apply Nat.eqb_eq in E. subst k. rewrite wsum_upd_out by lia. lia.
+    - apply Nat.eqb_neq in E. assert (j < k) by lia. specialize (IHk H0). lia.
+  Qed.
+
+  Theorem step_decreases s c : Inv s -> step kinds fails s c <> s -> measure (step kinds fails s c) < measure s.
+  Proof.
+    intros I Hne. pose proof I as I'. destruct I'. unfold measure.
+    destruct c as [|j|j|]; simpl in *.
+    - unfold step_b in *. destruct (bp s) as [k|k|k|k|] eqn:Eb; simpl in *.
+      + destruct (nth_error kinds k) eqn:Ek.
+        * assert (k < n) by (apply nth_error_Some; congruence).
+          destruct (String.eqb (prev_kind s) s0); simpl; lia.
+        * simpl. lia.
+      + destruct (wg s); [|congruence]. destruct (nth_error kinds k); [|congruence]. simpl. lia.
+      + simpl. lia.
+      + simpl. assert (Hk : k < n) by tauto.
+        assert (Hi : ws s k = WIdle).
+        { assert (spawned (ws s k) = true <-> k < k) by apply i_spawn0.
+          destruct (ws s k); simpl in *; auto; exfalso; assert (k < k) by (apply H; reflexivity); lia. }
+        pose proof (wsum_upd_in (ws s) k WReady n Hk) as W. rewrite Hi in W. simpl in W. lia.
+      + congruence.
+    - unfold step_w in *.
+      assert (Hj : spawned (ws s j) = true -> j < n) by (intros H; apply i_spawn0 in H; lia).
+      destruct (ws s j) eqn:E; try congruence; simpl;
+        pose proof (wsum_upd_in (ws s) j) as W; rewrite E in W; simpl in W, Hj.
+      + specialize (W WRunning n (Hj eq_refl)). simpl in W. lia.
+      + specialize (W WSending n (Hj eq_refl)). simpl in W. lia.
+      + specialize (W WDone n (Hj eq_refl)). simpl in W. lia.
+    - unfold step_recv in *.
+      destruct (ws s j) eqn:E; try congruence. destruct (returned s) eqn:Er; try congruence.
+      destruct (Nat.ltb _ _); try congruence. simpl.
+      assert (Hj : j < n) by (assert (spawned (ws s j) = true) by (rewrite E; reflexivity); apply i_spawn0 in H; lia).
+      pose proof (wsum_upd_in (ws s) j WSent n Hj) as W. rewrite E in W. simpl in W. lia.
+    - unfold step_p in *. destruct (Nat.eqb _ _); [|congruence]. simpl.
+      destruct (returned s) eqn:Er; [|lia].
+      exfalso. apply Hne. destruct s; simpl in *; subst; reflexivity.
+  Qed.
+
+  Lemma run_snoc sched c : run kinds fails (sched ++ [c])%list = step kinds fails (run kinds fails sched) c.
+  Proof. unfold run. now rewrite fold_left_app. Qed.
+
+  (* from every reachable state perform can still return, and it does so as soon as the
+     scheduler keeps choosing threads that can move *)
+  Theorem can_always_return sched : exists sched', returned (run kinds fails (sched ++ sched')%list) = true.
+  Proof.
+    remember (measure (run kinds fails sched)) as m eqn:Em.
+    revert sched Em. induction m as [m IH] using lt_wf_ind. intros sched Em.
+    destruct (returned (run kinds fails sched)) eqn:Er.
+    - exists []. now rewrite app_nil_r.
+    - destruct (no_deadlock sched Er) as [c Hc].
+      assert (Hlt : measure (run kinds fails (sched ++ [c])%list) < m).
+      { rewrite run_snoc, Em. apply step_decreases; auto. apply run_inv. }
+      destruct (IH _ Hlt (sched ++ [c])%list eq_refl) as [sched' Hs].
+      exists (c :: sched'). rewrite <- app_assoc in Hs. exact Hs.
+  Qed.
+
+  (* number of choices of a schedule that moved a thread *)
+  Fixpoint effective (s : state) (sched : list choice) (dec : forall a b : state, {a = b} + {a <> b}) : nat :=
+    match sched with
+    | [] => 0
+    | c :: t => (if dec (step kinds fails s c) s then 0 else 1) + effective (step kinds fails s c) t dec
+    end.
+
+  Theorem effective_bounded dec sched s :
+    Inv s -> effective s sched dec + measure (fold_left (step kinds fails) sched s) <= measure s.
+  Proof.
+    revert s. induction sched as [|c t IH]; intros s I; simpl; [lia|].
+    specialize (IH _ (inv_step s c I)).
+    destruct (dec (step kinds fails s c) s) as [E|E].
+    - rewrite E in *. lia.
+    - pose proof (step_decreases s c I E). lia.
+  Qed.
+
+  Lemma measure_init : measure (init) = 9 * n + 2.
+  Proof.
+    unfold measure, init. simpl.
+    assert (W : forall k, wsum (fun _ => WIdle) k = 5 * k) by (induction k; simpl; lia).
+    rewrite W. lia.
+  Qed.
 End Proofs.
